@@ -314,34 +314,30 @@ func aperEncDomain(e *emitter, roundTrip bool) {
 			lens = []int{65529, 65530, 65531, 65532, 65533, 65534, 65535, 131066, 131067, 131068, 131069, 131070}
 		}
 		for _, n := range lens {
-			pdu := ngapType.NGAPPDU{Present: ngapType.NGAPPDUPresentInitiatingMessage}
-			im := &ngapType.InitiatingMessage{}
-			im.ProcedureCode.Value = ngapType.ProcedureCodeDownlinkNASTransport
-			im.Criticality.Value = ngapType.CriticalityPresentIgnore
-			im.Value.Present = ngapType.InitiatingMessagePresentDownlinkNASTransport
-			m := &ngapType.DownlinkNASTransport{}
-			add := func(id int64, f func(ie *ngapType.DownlinkNASTransportIEs)) {
-				ie := ngapType.DownlinkNASTransportIEs{}
-				ie.Id.Value = id
-				ie.Criticality.Value = ngapType.CriticalityPresentReject
-				f(&ie)
-				m.ProtocolIEs.List = append(m.ProtocolIEs.List, ie)
-			}
-			add(ngapType.ProtocolIEIDAMFUENGAPID, func(ie *ngapType.DownlinkNASTransportIEs) {
-				ie.Value.Present = ngapType.DownlinkNASTransportIEsPresentAMFUENGAPID
-				ie.Value.AMFUENGAPID = &ngapType.AMFUENGAPID{Value: 1}
-			})
-			add(ngapType.ProtocolIEIDRANUENGAPID, func(ie *ngapType.DownlinkNASTransportIEs) {
-				ie.Value.Present = ngapType.DownlinkNASTransportIEsPresentRANUENGAPID
-				ie.Value.RANUENGAPID = &ngapType.RANUENGAPID{Value: 1}
-			})
-			add(ngapType.ProtocolIEIDNASPDU, func(ie *ngapType.DownlinkNASTransportIEs) {
-				ie.Value.Present = ngapType.DownlinkNASTransportIEsPresentNASPDU
-				ie.Value.NASPDU = &ngapType.NASPDU{Value: bytes.Repeat([]byte{0x5a}, n)}
-			})
-			im.Value.DownlinkNASTransport = m
-			pdu.InitiatingMessage = im
+			pdu := dlNasTransportPdu(n)
 			if roundTrip {
+				emit("NGAPPDU", reflect.ValueOf(pdu), false)
+			} else {
+				e.op("ngapenc", strings.Fields(valTokens(reflect.ValueOf(pdu)))...)
+			}
+		}
+	}
+	// 1f. general length determinants at their form boundaries: DOWNLINK NAS TRANSPORT with every NAS-PDU length of a
+	// contiguous range, so that each nesting level (the OCTET STRING, the IE value, the message value — all general lengths)
+	// passes through exactly 127 / 128 (one octet → two octets) and 16383 / 16384 (two octets → fragments) at some length
+	{
+		var lens []int
+		for n := 88; n <= 135; n++ {
+			lens = append(lens, n)
+		}
+		for n := 16352; n <= 16388; n++ {
+			if e.thorough() || n%2 == 0 || n >= 16380 {
+				lens = append(lens, n)
+			}
+		}
+		for _, n := range lens {
+			pdu := dlNasTransportPdu(n)
+			if roundTrip || n%3 == 0 {
 				emit("NGAPPDU", reflect.ValueOf(pdu), false)
 			} else {
 				e.op("ngapenc", strings.Fields(valTokens(reflect.ValueOf(pdu)))...)
@@ -393,6 +389,38 @@ func aperEncDomain(e *emitter, roundTrip bool) {
 		g.longMax = 0
 	}
 	aperSynEnc(e, g, roundTrip)
+}
+
+// dlNasTransportPdu: DOWNLINK NAS TRANSPORT (AMF-UE-NGAP-ID 1, RAN-UE-NGAP-ID 1) with a NAS-PDU of n octets
+func dlNasTransportPdu(n int) ngapType.NGAPPDU {
+	pdu := ngapType.NGAPPDU{Present: ngapType.NGAPPDUPresentInitiatingMessage}
+	im := &ngapType.InitiatingMessage{}
+	im.ProcedureCode.Value = ngapType.ProcedureCodeDownlinkNASTransport
+	im.Criticality.Value = ngapType.CriticalityPresentIgnore
+	im.Value.Present = ngapType.InitiatingMessagePresentDownlinkNASTransport
+	m := &ngapType.DownlinkNASTransport{}
+	add := func(id int64, f func(ie *ngapType.DownlinkNASTransportIEs)) {
+		ie := ngapType.DownlinkNASTransportIEs{}
+		ie.Id.Value = id
+		ie.Criticality.Value = ngapType.CriticalityPresentReject
+		f(&ie)
+		m.ProtocolIEs.List = append(m.ProtocolIEs.List, ie)
+	}
+	add(ngapType.ProtocolIEIDAMFUENGAPID, func(ie *ngapType.DownlinkNASTransportIEs) {
+		ie.Value.Present = ngapType.DownlinkNASTransportIEsPresentAMFUENGAPID
+		ie.Value.AMFUENGAPID = &ngapType.AMFUENGAPID{Value: 1}
+	})
+	add(ngapType.ProtocolIEIDRANUENGAPID, func(ie *ngapType.DownlinkNASTransportIEs) {
+		ie.Value.Present = ngapType.DownlinkNASTransportIEsPresentRANUENGAPID
+		ie.Value.RANUENGAPID = &ngapType.RANUENGAPID{Value: 1}
+	})
+	add(ngapType.ProtocolIEIDNASPDU, func(ie *ngapType.DownlinkNASTransportIEs) {
+		ie.Value.Present = ngapType.DownlinkNASTransportIEsPresentNASPDU
+		ie.Value.NASPDU = &ngapType.NASPDU{Value: bytes.Repeat([]byte{0x5a}, n)}
+	})
+	im.Value.DownlinkNASTransport = m
+	pdu.InitiatingMessage = im
+	return pdu
 }
 
 func safeMarshal(v reflect.Value, params string) (b []byte, err error) {
